@@ -36,6 +36,25 @@ Proof.
   - destruct (step o st x) as [st1 y]. rewrite IH. destruct (run o st1 r) as [s1 y1]. destruct (run o s1 b); reflexivity.
 Qed.
 
+Lemma run_length o ops : forall st, List.length (snd (run o st ops)) = List.length ops.
+Proof.
+  induction ops as [|x r IH]; intro st; [reflexivity|]. cbn [run]. destruct (step o st x) as [st1 y].
+  specialize (IH st1). destruct (run o st1 r) as [st2 ys]. cbn [snd List.length] in *. now rewrite IH.
+Qed.
+
+(* every observation made anywhere in a history is the observation a parser would give that had been fed only the
+   earlier non-observer calls: output requests before it (however many) and all calls after it have no influence *)
+Theorem observation_at o a x b st : is_observer x = true ->
+  nth_error (snd (run o st (a ++ x :: b))) (List.length a) =
+  Some (snd (step o (fst (run o st (filter (fun x => negb (is_observer x)) a))) x)).
+Proof.
+  intro Ob. rewrite run_app. pose proof (run_length o a st) as L.
+  destruct (run_without_observers o a st) as [F _]. rewrite <- F.
+  destruct (run o st a) as [s1 y1]. cbn [fst snd] in *. cbn [run].
+  destruct (step o s1 x) as [s1' y]. destruct (run o s1' b) as [s2 y2]. cbn [snd].
+  rewrite nth_error_app2 by lia. rewrite L, PeanoNat.Nat.sub_diag. reflexivity.
+Qed.
+
 (* ---- heap surgery ---- *)
 Lemma set_doc_length h i d : List.length (set_doc h i d) = List.length h.
 Proof. revert i. induction h as [|x t IH]; intro i; [reflexivity|]. destruct i; cbn; [reflexivity|now rewrite IH]. Qed.
